@@ -169,6 +169,15 @@ def run(tier):
             except tzpipe.CompilerDied as e:
                 v.inconclusive_because("source %s could not be compiled (C03 judges that): %s" % (pid, repr(e.exc)[:200]))
                 continue
+            # every emitted zone or link name must own its C++ symbol (names that differ only in '-', '_', '+' fold together)
+            sym = {}
+            for nm in list(lc.tzdb["zones_map"]) + list(lc.tzdb["links_map"]):
+                k = transformer.normalize_name(nm)
+                if k in sym:
+                    v.violation("c11:generated-names-share-a-symbol", "two emitted zone / link names fold to the same C++ symbol, so one of them cannot denote its own zone",
+                                {"program": pid, "scope": scope, "a": sym[k], "b": nm, "symbol": "kZone" + k})
+                sym[k] = nm
+            c["handwritten_symbols_checked"] = c.get("handwritten_symbols_checked", 0) + len(sym)
             for l, t in lc.tzdb["links_map"].items():
                 c["handwritten_links_checked"] = c.get("handwritten_links_checked", 0) + 1
                 if prog["links"].get(l) != t or t not in lc.tzdb["zones_map"]:
